@@ -10,7 +10,7 @@ d0=$(run_demo)
 git apply "$D/patch.diff" || { echo "$P-$N APPLY FAILED"; exit 2; }
 d1=$(run_demo)
 tests=$(cd "$WT" && PYTHONPATH=$WT timeout 1500 /venv/bin/python -W ignore -m pytest -q -p no:cacheprovider --timeout=900 -W ignore 2>&1 | tail -1)
-(cd /verif && VERIF_REPO=$WT ./check $P --tier quick > $LOG 2>&1); rc=$?
+(cd ${VERIF_HOME:-/verif} && VERIF_REPO=$WT ./check $P --tier quick > $LOG 2>&1); rc=$?
 viol=$(grep -E "^VIOLATION" $LOG | head -3 | tr '\n' ' ')
 how=$(grep -E "failing input|proof_broken|corr .*disagree|correspondence broke" $LOG | head -4 | cut -c1-260 | tr '\n' '|')
 cd "$WT" && git checkout -q -- . && git clean -qfd
